@@ -5,7 +5,7 @@ from hutil import S, unS, err, exc_code, enc_val
 MODEL = "C06"
 PROP_FILES = ["Props/C06.v"]
 RULE = ("op sequences over a 20-op alphabet (add option / command option with aliases / argument / command name, set_* "
-        "replacements) drawn from a colliding name pool, on 0, 1 and 2 levels of base format; exhaustive to length 3 (quick) / 4 "
+        "replacements) drawn from a colliding name pool, on 0, 1 and 2 levels of base format (one chain with an empty level on top of a defining one); exhaustive to length 3 (quick) / 4 "
         "(thorough), seeded random to length 7; after every op the exception class and the full query vector of the builder and of "
         "builder.format are compared, plus ArgsFormat(elements, base) for add-only sequences; non-trivial = >= 1 rejection or >= 2 "
         "accepted elements; distinct by (bases, ops)")
@@ -43,7 +43,10 @@ ALPHA = ([e_opt(o) for o in OPTS] + [e_copt(c) for c in COPTS] + [e_arg(a) for a
           [6, [e_arg(ARGS[1])[1], e_arg(ARGS[5])[1]]], [7, [e_cname(CNAMES[1])[1]]]])
 BASES = [[],
          [[e_opt(OPTS[1]), e_arg(ARGS[0]), e_cname(CNAMES[0])]],
-         [[e_copt(["cmd", "c", ["yy"], []]), e_arg(ARGS[0])], [e_opt(OPTS[0]), e_arg(ARGS[1]), e_cname(["server", []])]]]
+         [[e_copt(["cmd", "c", ["yy"], []]), e_arg(ARGS[0])], [e_opt(OPTS[0]), e_arg(ARGS[1]), e_cname(["server", []])]],
+         # an EMPTY level on top of a level that defines things (a format object that lists nothing of its own must still
+         # pass on what its base defines: seeded change C06-f)
+         [[e_opt(OPTS[0]), e_copt(["cmd", "c", ["yy"], []]), e_arg(ARGS[1]), e_arg(ARGS[3])], []]]
 
 
 def gen(rng, tier, info):
